@@ -38,6 +38,17 @@ fn lockstep<S: Spec>(seed: &[u8], n_out: usize, image_every: usize, mix_widths: 
     let mut choice = Prng::new(id ^ 0x55);
     let mut first = Vec::new();
     for k in 0..n_out {
+        // the stream continues unchanged across clone() / clone_from()
+        if k % 97 == 41 {
+            if k % 2 == 0 {
+                rng = rng.clone();
+            } else {
+                let mut other = S::from_seed(&vec![0x5au8; S::SEED_LEN]);
+                for _ in 0..(k % 300) { other.next_u32(); }
+                other.clone_from(&rng);
+                rng = other;
+            }
+        }
         let (got, want, width) = match S::FAMILY {
             Family::W32 | Family::Block32(_) => (rng.next_u32() as u64, model.next(), "u32"),
             Family::SplitMix if mix_widths && choice.chance(1, 2) => {
@@ -123,6 +134,11 @@ fn core_blocks(type_idx: usize, seed: &[u8], blocks: usize, sub: &str, id: u64, 
                         core = other;
                         r.cov("core_clone_from");
                     }
+                    // generate() must not depend on what the results buffer held before:
+                    // zeros, junk, or exactly the block it is about to produce (look-ahead on a clone)
+                    2 => res = [0u32; 16],
+                    3 => { for w in res.iter_mut() { *w = q.u32(); } }
+                    4 | 5 => { let mut ahead = core.clone(); ahead.generate(&mut res); r.cov("generate_into_lookahead_buffer"); }
                     _ => {}
                 }
                 core.generate(&mut res);
@@ -307,6 +323,130 @@ fn case(prop: u32, sub: &str, id: u64, ctx: &Ctx, r: &mut Report) {
                 }
             });
         }
+        // very many seeds, first block only (C02): rare-seed slips in the key/IV
+        // expansion (a checked `+`, a narrow intermediate) at ~1e-5 per seed
+        "many_seeds" => {
+            let n = if crate::util::REDUCED.load(std::sync::atomic::Ordering::Relaxed) { 20 } else { 25_000 };
+            for k in 0..n {
+                let mut seed = [0u8; 32];
+                if k % 2 == 0 {
+                    // counter seeds (little-endian u64 in the first 8 bytes)
+                    let sh = p.below(44);
+                    seed[..8].copy_from_slice(&(p.u64() >> sh).to_le_bytes());
+                } else {
+                    p.fill(&mut seed);
+                }
+                let mut m = crate::models::hc128::Hc128::new(&seed);
+                let made = guarded(|| { let mut g = rand_hc::Hc128Rng::from_seed(seed); (0..4).map(|_| g.next_u32()).collect::<Vec<u32>>() });
+                r.eval();
+                match made {
+                    Ok(v) => {
+                        let want: Vec<u32> = (0..4).map(|_| m.next()).collect();
+                        if v != want {
+                            r.violation("Hc128Rng:stream:u32".into(), sub, id, json!({"seed": hex(&seed), "expected": format!("{:08x?}", want), "observed": format!("{:08x?}", v)}));
+                            return;
+                        }
+                    }
+                    Err(c) => {
+                        r.violation(format!("Hc128Rng:from_seed:{}", c.signature()), sub, id, json!({"seed": hex(&seed)}));
+                        return;
+                    }
+                }
+            }
+            r.covn("many_seeds", n);
+            r.distinct(hkey(&[&"many_seeds", &id]));
+        }
+        // two generators built back to back from RELATED seeds (word differences that
+        // cancel in sums / xors / Fletcher-type checksums): the second must still be
+        // the generator of ITS seed
+        "related_pair" => {
+            with_spec!(ti, S => {
+                let (_, x) = gen_seed(&mut p, S::SEED_LEN, 4, true);
+                let words = S::SEED_LEN / 4;
+                let rd = |s: &[u8], i: usize| u32::from_le_bytes([s[4 * i], s[4 * i + 1], s[4 * i + 2], s[4 * i + 3]]);
+                let wr = |s: &mut [u8], i: usize, v: u32| s[4 * i..4 * i + 4].copy_from_slice(&v.to_le_bytes());
+                let mut y = x.clone();
+                let sh = p.below(31);
+                let d = 1 + p.below(1 << sh) as u32;
+                let i = p.below(words as u64) as usize;
+                let pattern: &[i64] = match p.below(5) { 0 => &[1, -1], 1 => &[1, -2, 1], 2 => &[1, -3, 3, -1], 3 => &[1, 0, -1], _ => &[1, 1] };
+                let xor = pattern == [1, 1];
+                for (k, c) in pattern.iter().enumerate() {
+                    let j = (i + k) % words;
+                    let v = rd(&x, j);
+                    wr(&mut y, j, if xor { v ^ d } else { v.wrapping_add((*c as i64 * d as i64) as u32) });
+                }
+                if y != x && (!S::LINEAR || y.iter().any(|&b| b != 0)) && (!S::LINEAR || x.iter().any(|&b| b != 0)) {
+                    let _first = S::from_seed(&x);
+                    // second construction right after the first, same thread
+                    if lockstep::<S>(&y, 40, 0, true, sub, id, r) {
+                        r.cov("related_pairs");
+                        r.distinct(hkey(&[&"related_pair", &S::NAME, &x, &y]));
+                    }
+                }
+            });
+        }
+        // C03: states far into the stream, installed through the crates' own serde
+        // implementation: block counter c just below its wrap (reached after 2^32
+        // resp. 2^64 refills), arbitrary mem / a / b. The model gets the same fields.
+        "crafted" => {
+            use crate::models::isaac::{Isaac32, Isaac64};
+            let near_wrap = p.below(4);
+            if p.chance(1, 2) {
+                let mut m = Isaac32 { mm: [0; 256], aa: p.u32(), bb: p.u32(), cc: u32::MAX - near_wrap as u32, rsl: [0; 256], cnt: 0 };
+                for w in m.mm.iter_mut() { *w = p.u32(); }
+                let mut img = Vec::new();
+                for w in m.mm.iter().chain([m.aa, m.bb, m.cc].iter()) { img.extend_from_slice(&w.to_le_bytes()); }
+                let made = guarded(|| {
+                    let mut core: rand_isaac::isaac::IsaacCore = bincode::deserialize(&img).expect("IsaacCore image");
+                    let mut res = <rand_isaac::isaac::IsaacCore as BlockRngCore>::Results::default();
+                    let mut out = Vec::new();
+                    for _ in 0..6 { core.generate(&mut res); let s: &[u32] = res.as_ref(); out.extend_from_slice(s); }
+                    out
+                });
+                r.eval();
+                match made {
+                    Ok(out) => {
+                        for (k, &w) in out.iter().enumerate() {
+                            let want = m.next();
+                            if w != want {
+                                r.violation("IsaacCore:generate:crafted_state".into(), sub, id, json!({"c": hx32(u32::MAX - near_wrap as u32), "word": k, "expected": hx32(want), "observed": hx32(w)}));
+                                return;
+                            }
+                        }
+                    }
+                    Err(c) => { r.violation(format!("IsaacCore:generate:{}", c.signature()), sub, id, json!({"c": hx32(u32::MAX - near_wrap as u32), "note": "block counter just below its wrap"})); return; }
+                }
+                r.cov("crafted:IsaacCore");
+            } else {
+                let mut m = Isaac64 { mm: [0; 256], aa: p.u64(), bb: p.u64(), cc: u64::MAX - near_wrap, rsl: [0; 256], cnt: 0 };
+                for w in m.mm.iter_mut() { *w = p.u64(); }
+                let mut img = Vec::new();
+                for w in m.mm.iter().chain([m.aa, m.bb, m.cc].iter()) { img.extend_from_slice(&w.to_le_bytes()); }
+                let made = guarded(|| {
+                    let mut core: rand_isaac::isaac64::Isaac64Core = bincode::deserialize(&img).expect("Isaac64Core image");
+                    let mut res = <rand_isaac::isaac64::Isaac64Core as BlockRngCore>::Results::default();
+                    let mut out = Vec::new();
+                    for _ in 0..6 { core.generate(&mut res); let s: &[u64] = res.as_ref(); out.extend_from_slice(s); }
+                    out
+                });
+                r.eval();
+                match made {
+                    Ok(out) => {
+                        for (k, &w) in out.iter().enumerate() {
+                            let want = m.next();
+                            if w != want {
+                                r.violation("Isaac64Core:generate:crafted_state".into(), sub, id, json!({"c": hx64(u64::MAX - near_wrap), "word": k, "expected": hx64(want), "observed": hx64(w)}));
+                                return;
+                            }
+                        }
+                    }
+                    Err(c) => { r.violation(format!("Isaac64Core:generate:{}", c.signature()), sub, id, json!({"c": hx64(u64::MAX - near_wrap)})); return; }
+                }
+                r.cov("crafted:Isaac64Core");
+            }
+            r.distinct(hkey(&[&"crafted", &id]));
+        }
         // seeds aimed at special values of one generator (enumerated: id = index)
         "special" => {
             let ti = types[(id % types.len() as u64) as usize];
@@ -343,6 +483,9 @@ fn case(prop: u32, sub: &str, id: u64, ctx: &Ctx, r: &mut Report) {
                         5..=6 => Op::Fill(p.below(70) as usize),
                         _ => Op::Fill(*p.pick(&[bb - 1, bb, bb + 1, 2 * bb, 1023, 1024, 1025, 1100, 2047, 2048, 2049, 2100, 4096, 4097, 5000, 3 * bb + 7])),
                     };
+                    if p.chance(1, 6) {
+                        rng = rng.clone();
+                    }
                     let want = proj.expect(&op, &mut |k| { while words.len() <= k { words.push(model.next()); } words[k] });
                     let got = apply(&mut rng, &op);
                     ops.push(op.clone());
@@ -386,7 +529,11 @@ fn case(prop: u32, sub: &str, id: u64, ctx: &Ctx, r: &mut Report) {
                     ops.extend(boundary_sequence(fam, 3, seq));
                     ops.push(Op::U32);
                     ops.push(Op::U64);
+                    let clone_at = starts[start_slot] + half as usize + (seq % 4) as usize;
                     for (i, op) in ops.iter().enumerate() {
+                        if i == clone_at {
+                            rng = rng.clone(); // at the boundary position, possibly with a half word pending
+                        }
                         let want = proj.expect(op, &mut |k| { while words.len() <= k { words.push(model.next()); } words[k] });
                         let got = apply(&mut rng, op);
                         r.eval();
@@ -532,6 +679,11 @@ pub fn run(prop: u32, ctx: &Ctx, only: Option<&Only>) -> Report {
         total.merge(drive(ctx, "deeprun", 16, secs * 0.15, |id, r| case(prop, "deeprun", id, ctx, r)));
     }
     total.merge(drive(ctx, "mixed", ctx.n(6_000, 6_000), secs * 0.1, |id, r| case(prop, "mixed", id, ctx, r)));
+    total.merge(drive(ctx, "related_pair", ctx.n(4_000, 4_000), secs * 0.02, |id, r| case(prop, "related_pair", id, ctx, r)));
+    if prop == 2 {
+        // 64 x 25 000 seeds in the quick tier
+        total.merge(drive(ctx, "many_seeds", 64, secs * 0.1, |id, r| case(prop, "many_seeds", id, ctx, r)));
+    }
     // 2^32-step runs: XorShiftRng always (about 10 s on one core); every other
     // small generator in the thorough tier, one thread per type
     if ctx.scale >= 1.0 && ctx.tier_thorough && (prop == 4 || prop == 1) {
@@ -566,6 +718,7 @@ pub fn run(prop: u32, ctx: &Ctx, only: Option<&Only>) -> Report {
     }
     if prop == 3 {
         total.merge(drive(ctx, "wrapper", 64, 0.0, |id, r| case(prop, "wrapper", id, ctx, r)));
+        total.merge(drive(ctx, "crafted", 400, 0.0, |id, r| case(prop, "crafted", id, ctx, r)));
     }
     if prop == 2 {
         total.merge(drive(ctx, "wrapper", 64, 0.0, |id, r| case(prop, "wrapper", id, ctx, r)));
@@ -582,6 +735,15 @@ pub fn run(prop: u32, ctx: &Ctx, only: Option<&Only>) -> Report {
         total.floor(&format!("type:{}", TYPE_NAMES[ti]), 10);
     }
     total.floor("single_byte_seeds", 20);
+    total.floor("related_pairs", 1_000);
+    if prop == 3 {
+        total.floor("crafted:IsaacCore", 50);
+        total.floor("crafted:Isaac64Core", 50);
+    }
+    if prop == 2 {
+        total.floor("many_seeds", 1_000_000);
+        total.floor("generate_into_lookahead_buffer", 100);
+    }
     total.floor("special_seeds", 4);
     total
 }
